@@ -179,6 +179,8 @@ def _py_src(P):
         return 'len(%s)' % py_src(P[1])
     if k == 'sub':
         return '(%s) - %d' % (py_src(P[1]), P[2])
+    if k == 'or':
+        return '(%s) or %d' % (py_src(P[1]), P[2])
     raise ValueError(P)
 
 
@@ -428,6 +430,8 @@ def grammar(g, st=DEFAULT, bm=False, name=None, extends=None, ign_first=False,
     for s in stmts:
         if st.comments and st.rng is not None and st.rng.random() < 0.5:
             out.append('# comment %d' % len(out))
+        if st.comments and st.rng is not None and st.sep == '\n' and st.rng.random() < 0.4:
+            s = s + '   # a comment at the end of the line, the next statement follows directly'
         out.append(s)
     sep = st.sep
     if sep == ';':
